@@ -2,7 +2,7 @@
 """Size of the G-ast space for given AstParams (mirrors gen::gen_list), by dynamic programming."""
 import functools, sys
 def count(max_lines, max_depth, n_block_kinds, n_inline_kinds, unwrap, ws, mb, extra, blank, rich, short, shared_pairs):
-    n_leaf = 1 + (1 if extra else 0) + (1 if mb else 0) + (1 if rich else 0) + (1 if blank else 0) + (2 if ws else 0) + 2*n_inline_kinds + 3*shared_pairs
+    n_leaf = 1 + (1 if extra else 0) + (1 if mb else 0) + (1 if rich else 0) + (1 if blank else 0) + (2 if ws else 0) + 2*n_inline_kinds + 4*shared_pairs
     @functools.lru_cache(None)
     def W(b, d):
         # dict: remaining -> ways
